@@ -222,8 +222,8 @@ type ad%[1]d struct{ m *%[5]s.%[6]s }
 
 func (a *ad%[1]d) CallM(tok int) { a.m.M(tok, "s"+strconv.Itoa(tok)) }
 func (a *ad%[1]d) CallN(tok int) { a.m.N(tok, tok) }
-func (a *ad%[1]d) MCalls() []int { return decodeM(reflect.ValueOf(a.m.MCalls())) }
-func (a *ad%[1]d) NCalls() []int { return decodeN(reflect.ValueOf(a.m.NCalls())) }
+func (a *ad%[1]d) MCalls() e4rt.Snap { return snap(reflect.ValueOf(a.m.MCalls()), decodeM) }
+func (a *ad%[1]d) NCalls() e4rt.Snap { return snap(reflect.ValueOf(a.m.NCalls()), decodeN) }
 func (a *ad%[1]d) ResetM()       { %[7]s }
 func (a *ad%[1]d) ResetAll()     { %[8]s }
 func (a *ad%[1]d) SetMFunc(f func(int)) {
@@ -235,6 +235,36 @@ func (a *ad%[1]d) SetMFunc(f func(int)) {
 }
 func (a *ad%[1]d) SetNFunc(f func(int)) {
 	a.m.NFunc = func(xs ...int) { f(xs[0]) }
+}
+`
+
+// the same interface with the roles swapped: the variadic, result-less N is the method whose
+// function field runs the callback programs
+const e4AdapterTwoSwapped = `
+type tgt%[1]d struct{}
+
+func (tgt%[1]d) Name() string    { return %[2]q }
+func (tgt%[1]d) HasResets() bool { return %[3]v }
+func (tgt%[1]d) Stub() bool      { return %[4]v }
+func (tgt%[1]d) New() e4rt.Mock  { return &ad%[1]d{m: &%[5]s.%[6]s{}} }
+
+type ad%[1]d struct{ m *%[5]s.%[6]s }
+
+func (a *ad%[1]d) CallM(tok int) { a.m.N(tok, tok) }
+func (a *ad%[1]d) CallN(tok int) { a.m.M(tok, "s"+strconv.Itoa(tok)) }
+func (a *ad%[1]d) MCalls() e4rt.Snap { return snap(reflect.ValueOf(a.m.NCalls()), decodeN) }
+func (a *ad%[1]d) NCalls() e4rt.Snap { return snap(reflect.ValueOf(a.m.MCalls()), decodeM) }
+func (a *ad%[1]d) ResetM()       { %[7]s }
+func (a *ad%[1]d) ResetAll()     { %[8]s }
+func (a *ad%[1]d) SetMFunc(f func(int)) {
+	if f == nil {
+		a.m.NFunc = nil
+		return
+	}
+	a.m.NFunc = func(xs ...int) { f(xs[0]) }
+}
+func (a *ad%[1]d) SetNFunc(f func(int)) {
+	a.m.MFunc = func(x int, y string) (int, error) { f(x); return 0, nil }
 }
 `
 
@@ -253,8 +283,8 @@ type ad%[1]d struct{ m *%[5]s.%[6]s }
 
 func (a *ad%[1]d) CallM(tok int) { a.m.P() }
 func (a *ad%[1]d) CallN(tok int) { a.m.Q(%[5]s.Loc{V: tok}) }
-func (a *ad%[1]d) MCalls() []int { return make([]int, len(a.m.PCalls())) }
-func (a *ad%[1]d) NCalls() []int { return decodeQ(reflect.ValueOf(a.m.QCalls())) }
+func (a *ad%[1]d) MCalls() e4rt.Snap { return snap(reflect.ValueOf(a.m.PCalls()), decodeP) }
+func (a *ad%[1]d) NCalls() e4rt.Snap { return snap(reflect.ValueOf(a.m.QCalls()), decodeQ) }
 func (a *ad%[1]d) ResetM()       { %[7]s }
 func (a *ad%[1]d) ResetAll()     { %[8]s }
 func (a *ad%[1]d) SetMFunc(f func(int)) {
@@ -294,6 +324,12 @@ func decodeM(v reflect.Value) []int {
 	}
 	return out
 }
+
+func snap(v reflect.Value, dec func(reflect.Value) []int) e4rt.Snap {
+	return e4rt.Snap{Tokens: dec(v), Again: func() []int { return dec(v) }}
+}
+
+func decodeP(v reflect.Value) []int { return make([]int, v.Len()) }
 
 func decodeQ(v reflect.Value) []int {
 	out := make([]int, v.Len())
@@ -378,12 +414,16 @@ func e4Build(fx *Fixture, work string, rep *Report, builds []dynBuild) (string, 
 		if b.Resets {
 			resetM, resetAll = "a.m.ResetMCalls()", "a.m.ResetCalls()"
 		}
-		fmt.Fprintf(&adapters, e4AdapterTwo, 2*i, filepath.Base(b.Dir)+".Two", b.Resets, b.Stub, alias, c.mockNames()[0], resetM, resetAll)
+		fmt.Fprintf(&adapters, e4AdapterTwo, 3*i, filepath.Base(b.Dir)+".Two", b.Resets, b.Stub, alias, c.mockNames()[0], resetM, resetAll)
+		if b.Resets {
+			resetM = "a.m.ResetNCalls()"
+		}
+		fmt.Fprintf(&adapters, e4AdapterTwoSwapped, 3*i+2, filepath.Base(b.Dir)+".Two(N drives)", b.Resets, b.Stub, alias, c.mockNames()[0], resetM, resetAll)
 		if b.Resets {
 			resetM = "a.m.ResetPCalls()"
 		}
-		fmt.Fprintf(&adapters, e4AdapterVoid, 2*i+1, filepath.Base(b.Dir)+".Void", b.Resets, b.Stub, alias, c.mockNames()[1], resetM, resetAll)
-		fmt.Fprintf(&targets, "\t\ttgt%d{},\n\t\ttgt%d{},\n", 2*i, 2*i+1)
+		fmt.Fprintf(&adapters, e4AdapterVoid, 3*i+1, filepath.Base(b.Dir)+".Void", b.Resets, b.Stub, alias, c.mockNames()[1], resetM, resetAll)
+		fmt.Fprintf(&targets, "\t\ttgt%d{},\n\t\ttgt%d{},\n\t\ttgt%d{},\n", 3*i, 3*i+1, 3*i+2)
 	}
 	rep.Set("access_hooks_inserted", totalHooks)
 	main := fmt.Sprintf(e4MainHead, imports.String()) + adapters.String() + "\nfunc main() {\n\te4rt.Main([]e4rt.Target{\n" + targets.String() + "\t})\n}\n"
